@@ -163,9 +163,71 @@ def e2e_suite(ctx):
     ctx.suite("e2e_pinch", cases=len(meta), agree=agree, property_false=bad, mismatch=0, fragile_skipped=0)
 
 
+def retarget_suite(ctx):
+    """What-if on an analysed zone tree: a stream is added to a zone's collection (and to the site's), the tree is targeted again with the
+    public get_targets() hook, and the pinch of the re-targeted records is judged exactly like a fresh analysis of the enlarged problem
+    (and must coincide with it)."""
+    from OpenPinch import get_targets, extract_results
+    from OpenPinch.classes import Stream
+    from OpenPinch.lib import TargetOutput
+    n = ctx.budget(30, 600)
+    cf = CaseFile(ctx, "retarget", HDR, shard=40)
+    meta = []
+    for _ in range(n):
+        prob, m = pc.gen_problem(ctx.rng, nzones=ctx.rng.choice([1, 2]), regime=ctx.rng.choice(["none", "iso", "multi"]), nmax=5)
+        try:
+            out, mz = pc.run_service(prob)
+        except Exception:  # noqa: BLE001   (judged by the e2e suite)
+            continue
+        zname = ctx.rng.choice(sorted({s["zone"] for s in prob["streams"]}))
+        a = float(ctx.rng.randrange(30, 280, 5)) + 1.25            # end points that are not rows of the existing tables
+        b = a + ctx.rng.choice([-60.0, -35.0, 40.0, 75.0])
+        extra = dict(zone=zname, name="WhatIf", t_supply=a, t_target=b, heat_flow=float(ctx.rng.choice([50, 120, 400])),
+                     dt_cont=ctx.rng.choice([0.0, 2.5, 5.0]), htc=1.0)
+        st = Stream(name="WhatIf", t_supply=a, t_target=b, heat_flow=extra["heat_flow"], dt_cont=extra["dt_cont"], htc=1.0, is_process_stream=True)
+        z = mz.subzones[zname]
+        (z.hot_streams if a > b else z.cold_streams).add(st, "O99.WhatIf")
+        (mz.hot_streams if a > b else mz.cold_streams).add(st, zname + ".WhatIf")
+        q = dict(prob, streams=prob["streams"] + [extra])
+        try:
+            mz2 = get_targets(mz)
+            out2 = TargetOutput.model_validate(extract_results(mz2))
+            fresh, _ = pc.run_service(q)
+        except Exception as e:  # noqa: BLE001
+            ctx.fail("retarget-raises", f"{type(e).__name__}: {e}", suite="retarget", input=dict(problem=prob, added=extra), predicate="get_targets on an analysed tree")
+            continue
+        r2, r3 = {t.name: t for t in out2.targets}, {t.name: t for t in fresh.targets}
+        for zz, key in ((mz2, pc.di_key(mz2)), (mz2.subzones[zname], pc.di_key(mz2.subzones[zname]))):
+            if key is None or key not in r2 or key not in r3:
+                continue
+            tp, tf = r2[key].temp_pinch, r3[key].temp_pinch
+            xs = [x for x in q["streams"] if zz is mz2 or x["zone"] == zname]
+            cands = sorted({float(t) for x in list(zz.hot_streams) + list(zz.cold_streams) + list(zz.hot_utilities) + list(zz.cold_utilities)
+                            for t in (x.t_min_star, x.t_max_star) if abs(float(t)) < 1e8}, reverse=True)
+            xsq = "[" + "; ".join(c01.coq_sin(x) for x in xs) + "]"
+            cf.add(f"(let hs := hot_views shifted_view {xsq} in let cs := cold_views shifted_view {xsq} in "
+                   f"c06_b (Qred ((2 # 1000000) + eps9 * dscale hs cs)) hs cs {qlist(cands)} {qopt(tp.cold_temp)} {qopt(tp.hot_temp)})")
+            meta.append((prob, extra, key, (tp.cold_temp, tp.hot_temp), (tf.cold_temp, tf.hot_temp)))
+    agree = bad = 0
+    for (prob, extra, key, tp, tf), v in zip(meta, cf.run()):
+        ctx.evaluations += 1
+        ctx.count("retarget_" + ("same_as_fresh" if tp == tf else "differs_from_fresh"))
+        ctx.nontrivial_case(("retarget", key, repr(extra), repr(prob["streams"])))
+        if v[0] == 0 and tp == tf:
+            agree += 1
+            continue
+        bad += 1
+        if bad <= 2:
+            ctx.fail("pinch-after-retargeting", f"record {key} after adding a stream and calling get_targets again: "
+                     + (f"c06_b {v}" if v[0] != 0 else f"pinch {tp} differs from a fresh analysis of the enlarged problem {tf}"),
+                     suite="retarget", input=dict(problem=prob, added=extra, record=key), impl_output=dict(retargeted=tp, fresh=tf), predicate="c06_b; equal to fresh")
+    ctx.suite("retarget", cases=len(meta), agree=agree, property_false=bad, mismatch=0, fragile_skipped=0)
+
+
 def run(ctx):
     stage_suite(ctx)
     e2e_suite(ctx)
+    retarget_suite(ctx)
 
 
 def replay(ctx, data):
